@@ -184,6 +184,21 @@ def global_rules(sm, rep, tier):
 
 def finalize(sm, rep, tier, results):
     rep.floor('builder calls analysed for effects (22 x 9)', sum(1 for o in rep.obs if o['rule'] == 'Z1'), 190)
+    # positive controls: a store into read-only storage is an event - directly, through a slice view and through reshape
+    from ..arrays import Ctx, const_arr, ZERO as _Z
+    from ..interp import Interp
+    from ..npmodel import call_method
+    it = Interp(sm, Ctx())
+    b = Box(const_arr((Rat.const(4),), _Z))
+    b.frozen = 'ctl-input'
+    it.events.clear()
+    it.store_subscript(b, (Rat.const(1),), ONE, None)
+    direct = any(e[0] == 'input-mutated' for e in it.events)
+    it.events.clear()
+    v = call_method(it, b, 'ravel', [], {}, None)
+    it.store_subscript(v, (Rat.const(0),), ONE, None)
+    through_view = any(e[0] == 'input-mutated' and e[1] == 'ctl-input' for e in it.events)
+    rep.control('Z1 records a store into input storage, directly and through a ravel view', direct and through_view, f"direct={direct} view={through_view}")
     rep.samples.append(dict(rule='Z1', example="advection._upwind_min_max: ux_min = np.copy(u._xvalue); ux_min[mask] = 0  -> the store hits the copy; with the copy removed the interpreter records ('input-mutated', 'u._xvalue', ...)"))
 
 
